@@ -308,6 +308,8 @@ E("unpackdict_keys", 1, lambda S: etl.unpackdict(etl.convert(S[0], "v", lambda v
   "stream rect", ahead=4)
 E("unpack_direct", 1, lambda S: etl.unpack(S[0], "v", ["p", "q"]), "stream", cells={"v": "pair"})
 E("unpackdict_direct", 1, lambda S: etl.unpackdict(S[0], "v", keys=["p", "q"]), "stream rect", cells={"v": "dict"})
+E("unpackdict_direct_sampled", 1, lambda S: etl.unpackdict(S[0], "v"), "stream dynhdr rect", ahead=1002, cells={"v": "dict"},
+  empty=[("k", "j", "s")])
 E("convert_direct_listcell", 1, lambda S: etl.convert(S[0], "v", lambda v: v + [0] if isinstance(v, list) else v), "stream",
   cells={"v": "pair"})
 E("sort_listcells", 1, lambda S, **kw: etl.sort(S[0], "v", **kw), "sorted", cells={"v": "pair"})
